@@ -91,6 +91,30 @@ class LibMixin:
             isnil = v.rid == rid(0)
             # Clone(nil) == nil
             return SliceV(z3.If(isnil, rid(0), r.rid), idx(0), v.ln, z3.If(isnil, idx(0), v.ln), v.elem)
+        if callee == "slices.Grow":
+            self.models_used.add("slices.Grow (same length and contents, cap >= len+n; reallocates when needed; panics on n < 0)")
+            v = self.ev(args[0], st)
+            n = self.index_value(args[1], st)
+            if v.lv is not None:
+                raise Unsupported("Grow of array-backed slice")
+            self.oblige(st, "safety", "grow-nonneg@%s" % self.site(e), n >= 0, e.get("ln"), "slices.Grow: negative n panics")
+            need = v.ln + n
+            inplace = z3.simplify(need <= v.cap)
+            F = self.fresh_rid()
+            newcap = self.fresh("cap", IS)
+            self.assume(st, z3.And(newcap >= need, newcap <= idx(MAXLEN)))
+            self.oblige(st, "safety", "append-len@%s" % self.site(e), need <= idx(MAXLEN), e.get("ln"), "grown length within the address space")
+            for i, (_, srt) in enumerate(leaves(v.elem)):
+                key = self.mem_key(v.elem, i, srt)
+                m = self.mem_arr(st, key, srt)
+                old = z3.Select(m, v.rid)
+                # the grown copy keeps the old contents in [off, off+len); its spare capacity is unspecified
+                spare = self.fresh("grow@spare", z3.ArraySort(IS, srt))
+                p = z3.BitVec("p", IDX_BITS)
+                self.facts.append(z3.ForAll([p], z3.Implies(z3.And(p >= v.off, p < v.off + v.ln), z3.Select(spare, p) == z3.Select(old, p))))
+                st.mem[key] = z3.Store(m, F, spare)
+            st.ghost["alloc"] = st.ghost.get("alloc", z3.BitVecVal(0, 64)) + z3.If(inplace, idx(0), newcap * idx(self.elem_size(v.elem)))
+            return SliceV(z3.If(inplace, v.rid, F), v.off, v.ln, z3.If(inplace, v.cap, newcap), v.elem)
         if callee == "sync.(*Once).Do":
             self.models_used.add("sync.Once.Do (runs f iff the once has not fired, then marks it fired; at-most-once is trusted)")
             fun = e["Fun"]
@@ -169,5 +193,5 @@ class LibMixin:
         return zand(a.tag != rid(0), zor(*alts))
 
 
-LIB_PURE = {"sync.(*Once).Do", "errors.New", "fmt.Errorf", "errors.Is", "bytes.Clone", "slices.Clone", "math.Float64bits", "math.Float64frombits",
+LIB_PURE = {"slices.Grow", "sync.(*Once).Do", "errors.New", "fmt.Errorf", "errors.Is", "bytes.Clone", "slices.Clone", "math.Float64bits", "math.Float64frombits",
             "math.Float32bits", "math.Float32frombits"}
